@@ -1247,8 +1247,11 @@ class Interp:
         if all(isinstance(p, str) for p in parts):
             return ''.join(parts)
         for p in parts:
-            if hasattr(p, 'fstring_part'):
-                return FString(parts)
+            if hasattr(p, 'fstring_part') or isinstance(p, FString):
+                flat = []
+                for q in parts:
+                    flat.extend(q.parts if isinstance(q, FString) else [q])
+                return FString(flat)
         return self.wrap(z3.Concat(*[self.ex(p) for p in parts])) if len(parts) > 1 else parts[0]
 
     def py_str(self, v, node):
@@ -1403,6 +1406,17 @@ class Interp:
             return o[lo:hi]
         if hasattr(o, 'slice'):
             return o.slice(self, lo, hi, node)
+        if isinstance(o, Z) and self.sort_name(o) == 'String' and (lo is None or self._intish(lo)) and (hi is None or self._intish(hi)):
+            # python slice semantics on a symbolic string: negative bounds count from the end, both are clipped to [0, len]
+            n = z3.Length(o.e)
+
+            def norm(v, default):
+                if v is None:
+                    return default
+                x = self.ex(v)
+                return z3.If(x < 0, z3.If(x + n < 0, z3.IntVal(0), x + n), z3.If(x > n, n, x))
+            a, b = norm(lo, z3.IntVal(0)), norm(hi, n)
+            return self.wrap(z3.If(b > a, z3.SubString(o.e, a, b - a), z3.StringVal('')))
         raise CheckerError(f'slice of {o!r} unsupported at line {node.lineno}')
 
     def subscript(self, o, k, node):
@@ -2021,6 +2035,13 @@ class NativeMethod:
                 items = I.iterate(args[0], node)
                 if all(isinstance(x, str) for x in items):
                     return r.join(items)
+                if any(isinstance(x, FString) or hasattr(x, 'fstring_part') for x in items):
+                    parts = []
+                    for i, x in enumerate(items):
+                        if i:
+                            parts.append(r)
+                        parts.extend(x.parts if isinstance(x, FString) else [x])
+                    return FString(parts)
                 if not all(I._strish(x) for x in items):
                     raise PyRaise('TypeError', 'join of non-strings', node)
                 parts = []
@@ -2050,7 +2071,15 @@ class NativeMethod:
                 return I.wrap(z3.SuffixOf(I.ex(args[0]), e))
             if n == 'replace' and len(args) == 2 and all(isinstance(a, str) for a in args):
                 I.used_lib.add('str.replace = str.replace_all')
-                return I.wrap(z3.ReplaceAll(e, z3.StringVal(args[0]), z3.StringVal(args[1]))) if hasattr(z3, 'ReplaceAll') else _unsupported('replace')
+                if hasattr(z3, 'ReplaceAll'):
+                    return I.wrap(z3.ReplaceAll(e, z3.StringVal(args[0]), z3.StringVal(args[1])))
+                # no replace_all in this z3 build: an uninterpreted function with the one fact "nothing to replace -> unchanged"
+                S_ = z3.StringSort()
+                f = z3.Function('py_str_replace', S_, S_, S_, S_)
+                r_ = f(e, z3.StringVal(args[0]), z3.StringVal(args[1]))
+                if args[0] != '':
+                    I.ctx.assume(z3.Implies(z3.Not(z3.Contains(e, z3.StringVal(args[0]))), r_ == e))
+                return I.wrap(r_)
             if n == 'find' and I._strish(args[0]):
                 I.used_lib.add('str.find = str.indexof')
                 start = I.ex(args[1]) if len(args) > 1 else z3.IntVal(0)
